@@ -328,8 +328,18 @@ pub fn zstd_record(args: &Args) -> i32 {
             f
         }).collect()
     } else { vec![] };
+    // ... and files that shrink a thousandfold and more: zeros, a short period, zeros through zlib
+    let mut swollen = swollen;
+    if args.get("noise").is_some() {
+        swollen.push(vec![0u8; 1 << 20]);
+        swollen.push((0..3usize << 20).map(|i| b"0123456789abcdef"[i % 16]).collect());
+        let z = vec![0u8; 8 << 20];
+        let mut f = crate::gen::junk(&mut rng, 10);
+        f.extend_from_slice(&crate::gen::wrap_zlib(&crate::gen::zlib_raw(&z, 6, 0, 15, 8), &z, 2));
+        swollen.push(f);
+    }
     for fi in 0..nfiles + noise_sizes.len() + swollen.len() {
-        let segs = if fi >= nfiles + noise_sizes.len() { json!("noise through zlib: the file is larger than its expanded form") }
+        let segs = if fi >= nfiles + noise_sizes.len() { json!("size classes: larger than the expanded form / shrinking a thousandfold") }
                    else if fi >= nfiles { json!([{"c":"junk","n":noise_sizes[fi - nfiles]}]) }
                    else if fi == 0 { json!([]) } else if fi == 1 { json!([{"c":"junk","n":1}]) } else { random_segs_small(&mut rng) };
         let b = if fi >= nfiles + noise_sizes.len() {
@@ -463,7 +473,7 @@ pub fn abi_record(args: &Args) -> i32 {
     let mut out = std::io::BufWriter::new(std::fs::File::create(args.req("out")).unwrap());
     let mut run = 0;
     for fi in 0..nfiles + 1 {
-        let segs = if fi == nfiles { json!("noise through zlib: the file is larger than its expanded form") }
+        let segs = if fi == nfiles { json!("size classes: larger than the expanded form / shrinking a thousandfold") }
                    else if fi == 0 { json!([]) } else if fi == 1 { json!([{"c":"junk","n":2}]) } else { random_segs_small(&mut rng) };
         let b = if fi == nfiles {
             let noise: Vec<u8> = (0..250_000).map(|_| rng.below(256) as u8).collect();
